@@ -928,6 +928,8 @@ def gen_case(rng, focus, nops=None):
         names = [n for kd, n in gen.sig_names(sig) if kd == 'pos']
         if names:
             cfg['ignore'] = enc([rng.choice(names)])
+    if cfg.get('ignore') is not None and kk == 'raw' and not gen.backend_accepts(b, kk, dict(km, sentinel=True)):
+        del cfg['ignore']   # NULL (like the sentinel) has no source-text repr: outside that backend's key domain
     if algo not in BOUNDED:
         cfg['maxsize'] = 0 if algo == 'no' else None
     universe = list(gen.UNIVERSE)
